@@ -11,6 +11,7 @@ boot.init()
 from tartiflette import Directive, Engine, Resolver, Scalar, Subscription, TypeResolver  # noqa: E402
 
 from vt import smodel  # noqa: E402
+from vt.values import canon  # noqa: E402
 from vt.world import meta_of  # noqa: E402
 
 
@@ -103,6 +104,14 @@ class GateDirective:
         return await next_directive(parent_node, argument_definition_node, argument_node, value, ctx)
 
 
+class RecDirective:
+    """@vtrec(...): records the coerced directive arguments it receives (query-side, FIELD)."""
+
+    async def on_field_execution(self, directive_args, next_resolver, parent, args, ctx, info):
+        ctx["world"].dir_calls.append(("vtrec", "/".join(map(str, info.path.as_list())), canon(directive_args), dict(directive_args)))
+        return await next_resolver(parent, args, ctx, info)
+
+
 class Bundle:
     """One cooked engine for one schema model."""
 
@@ -117,6 +126,8 @@ class Bundle:
         s, sn = self.s, self.name
         if "vtgate" in s.directives:
             Directive("vtgate", schema_name=sn)(GateDirective())
+        if "vtrec" in s.directives:
+            Directive("vtrec", schema_name=sn)(RecDirective())
         for t in s.types.values():
             if t.kind == "SCALAR":
                 Scalar(t.name, schema_name=sn)(EvenScalar() if t.impl == "even" else TagScalar())
